@@ -232,8 +232,17 @@ EVALUATORS = {"platform": eval_platform}
 
 def _unparseable(case):
     from urllib.parse import urlsplit
+    from urllib.parse import unquote
     u = case["url"]
-    for cand in (u, "http://" + u, "https://www.facebook.com" + u if u.startswith("/") else u):
+    cands = [u, "http://" + u, "https://www.facebook.com" + u if u.startswith("/") else u]
+    # a redirect-like parameter or cache tail whose (decoded) target is itself unparseable
+    for i, ch in enumerate(u):
+        if ch == "=":
+            v = unquote(_re.split(r"[&#]", u[i + 1:], 1)[0])
+            cands += [v, "https://" + v, "http://" + v]
+    for m in _re.finditer(r"(?:ampproject\.org/[cv]/(?:s/)?|marfeel(?:cache)?\.com/(?:amp/)?)(.+)$", u, _re.I):
+        cands.append("https://" + m.group(1))
+    for cand in cands:
         try:
             urlsplit(cand)
         except ValueError:
